@@ -154,7 +154,10 @@ class Spec:
 
 LITERALS = [('1', 'int'), ('2.5', 'float'), ("'s'", 'str'), ("b'b'", 'bytes'), ('True', 'bool'), ('None', None), ('[1, 2]', 'list[int]'),
             ('(1, 2)', 'tuple[int, ...]'), ("{'a': 1}", 'dict[str, int]'), ('{1, 2}', 'set[int]'), ('[]', 'list'), ('1j', 'complex'),
-            ("['a', 'b']", 'list[str]'), ('-1', None), ('1 + 2', None), ("('a', 1)", 'tuple'), ('{}', 'dict')]
+            ("['a', 'b']", 'list[str]'), ('-1', None), ('1 + 2', None), ("('a', 1)", 'tuple'), ('{}', 'dict'),
+            # containers whose elements are not of one type: nothing more than the container type can be stated
+            ('[1, None, 3]', 'list'), ("{'x': 'X', 'y': None}", 'dict'), ('(None, 2.5)', 'tuple'), ('{None, 1}', 'set'), ('[True, 1]', 'list'),
+            ("[1, 2.0]", 'list'), ("{'a': 1, 2: 1}", 'dict'), ("(b'b', 's')", 'tuple'), ('[None, None]', 'list[None]')]
 
 BLOCKS = ['if', 'try', 'with', 'for', 'try-finally', 'if-else', 'if-name-ne', 'if-not-main', 'while-break', 'if-name-ne-rev',
           'if-elif', 'with-as', 'if-name-other-ne']
@@ -980,7 +983,20 @@ def _emit_items(g: Optional[_Gen], items: List[Item], indent: str, out: List[str
                 out.append(f'{indent}try:')
                 _emit_items(gen, it.members, indent + '    ', out, r, f)
                 out.append(f'{indent}except ImportError:')
-                out.append(f'{indent}    pass')
+                # the handler is not taken: what it defines is bound nowhere (other definitions of the names of the body, and
+                # names of its own)
+                decoys: List[str] = []
+                for m in it.members:
+                    if m.kind == 'func' and r.random() < .4:
+                        decoys += [f'{indent}    def {m.name}(*args):', f'{indent}        """Fallback written in a handler that is not taken."""']
+                    elif m.kind == 'var' and r.random() < .4:
+                        decoys += [f"{indent}    {m.name} = 'fallback'"]
+                    elif m.kind == 'class' and r.random() < .3:
+                        decoys += [f'{indent}    class {m.name}(Exception):', f'{indent}        """Fallback written in a handler that is not taken."""']
+                if r.random() < .4:
+                    n_ = r.randrange(10 ** 6)
+                    decoys += [f'{indent}    def handler_only{n_}():', f'{indent}        """Defined in a handler only."""', f'{indent}    HANDLER_ONLY{n_} = 1']
+                out.extend(decoys or [f'{indent}    pass'])
             elif b == 'try-finally':
                 out.append(f'{indent}try:')
                 _emit_items(gen, it.members, indent + '    ', out, r, f)
